@@ -283,10 +283,9 @@ def same_eq(a, b):
     return ({k: negq(v) for k, v in a[0].items()}, negq(a[1])) == (b[0], b[1])
 
 
-# model variants: one switch per proposed patch (c constants orientation F13/C15-b, e edge identity C15-c,
-# i initial-condition sign C15-d, j impedances at j·omega C15-g); the code must match one of them, 'asis' first
-NODAL_VARIANTS = ['asis', 'c1j0', 'c0j1', 'patched']
-MESH_VARIANTS = ['asis'] + ['e%di%dj%d' % (e, i, j) for j in (0, 1) for e in (0, 1) for i in (0, 1) if (e, i, j) not in ((0, 0, 0), (1, 1, 1))] + ['patched']
+# model variants: the nodal model has none left (F13, C15-b, C15-g fixed in /repo); the mesh model keeps one switch for
+# the open finding C15-c: 'asis' (e0) = components identified by node names, 'patched' (e1) = by graph edge
+MESH_VARIANTS = ['asis', 'patched']
 
 
 def parse_form(s):
@@ -319,8 +318,6 @@ def run(chk, replay=None):
     quick = chk.tier == 'quick'
     t_start = time.time()
     disagreements = []
-    ac_mismatch = []
-    dcf_mismatch = []
     state = {'cex': 0}
     chk.coverage['rule'] = (
         'circuit case = (analysis kind, sample point, netlist) x formulation (nodal / mesh / MNA matrix / state space); '
@@ -328,7 +325,6 @@ def run(chk, replay=None):
         'components R/L/C with rational values, optional initial conditions, 1-2 sources V/I of kind dc/step/ac, random orientation; '
         'transfer-function case = (domain s|z, form CCF|OCF|DCF, b, a) with degree 1-6, numeric or symbolic coefficients sampled at '
         'rational points; non-trivial = Lcapy produced the formulation and a finite exact solution; distinct by full input')
-    chk.coverage['nodal_variant'] = {}
     chk.coverage['mesh_variant'] = {}
 
     def eval_form(coeffs, const, xs):
@@ -371,13 +367,11 @@ def run(chk, replay=None):
         except Exception as e:   # noqa
             chk.count('lcapy-error', 'solve:%s' % type(e).__name__)
             return
-        replies = {}
-        for variant in NODAL_VARIANTS:
-            r = drv.ask1(net.model_req('form.nodal %s' % variant))
-            replies[variant] = None if r.startswith('error') or r.startswith('bad') else \
-                {p.split(' = ')[0]: parse_form(p.split(' = ')[1]) for p in r.split(' || ')}
-            if replies[variant] is None and variant == 'asis':
-                chk.count('model', 'nodal:' + r[:40])
+        r = drv.ask1(net.model_req('form.nodal x'))
+        model = None if r.startswith('error') or r.startswith('bad') else \
+            {p.split(' = ')[0]: parse_form(p.split(' = ')[1]) for p in r.split(' || ')}
+        if model is None:
+            chk.count('model', 'nodal:' + r[:40])
         for node, (lhs, rhs) in eqs.items():
             if node.startswith('*'):
                 continue
@@ -397,44 +391,27 @@ def run(chk, replay=None):
             chk.case(('nodal', net.key(), node), True)
             # correspondence
             got = ({k: v for k, v in cs.items() if v != '0'}, c0)
-            matched = None
-            for variant in NODAL_VARIANTS:
-                if replies[variant] is not None and node in replies[variant]:
-                    m = replies[variant][node]
-                    if same_eq(({k: v for k, v in m[0].items() if k != '0'}, m[1]), got):
-                        matched = matched or variant
-            if replies['asis'] is not None:
+            if model is not None:
                 chk.coverage['correspondence']['compared'] += 1
-                same = all(replies[v] is None or replies[v].get(node) == replies['asis'].get(node) for v in NODAL_VARIANTS)
-                if matched is None:
+                mm = model.get(node)
+                if mm is None or not same_eq(({k: v for k, v in mm[0].items() if k != '0'}, mm[1]), got):
                     chk.coverage['correspondence']['disagreements'] += 1
                     disagreements.append({'what': 'nodal equation', 'netlist': net.lines(), 'analysis': net.model_analysis(),
-                                          'node': node, 'lcapy': got, 'model_asis': replies['asis'].get(node),
-                                          'model_patched': (replies['patched'] or {}).get(node)})
-                elif not same:
-                    chk.coverage['nodal_variant'][matched] = chk.coverage['nodal_variant'].get(matched, 0) + 1
+                                          'node': node, 'lcapy': got, 'model': mm})
             # oracle: the reported solution in the printed equation
             order = sorted(cs)
             r = eval_form([cs[k] for k in order], c0, [xs[nodes.index(k)] for k in order]) if order else c0
             if r != '0':
-                # which patch switches the printed equation matches tells which defects are still present
-                fl = {'c': 0, 'j': 0}
-                for variant in NODAL_VARIANTS:
-                    if replies[variant] is not None and node in replies[variant]:
-                        mm = replies[variant][node]
-                        if same_eq(({k: v for k, v in mm[0].items() if k != '0'}, mm[1]), got):
-                            vf = {'asis': (0, 0), 'c1j0': (1, 0), 'c0j1': (0, 1), 'patched': (1, 1)}[variant]
-                            fl = {'c': max(fl['c'], vf[0]), 'j': max(fl['j'], vf[1])}
-                why = None if fl['c'] else unsafe_nodal(net, int(node))
-                if not why and not fl['j'] and net.analysis == 'ac' and \
-                        any(c[1] in 'CL' and int(node) in (c[2], c[3]) for c in net.cpts):
+                # structural key (all of these findings are fixed: a match is reported as a VIOLATION again)
+                why = unsafe_nodal(net, int(node))
+                if not why and net.analysis == 'ac' and any(c[1] in 'CL' and int(node) in (c[2], c[3]) for c in net.cpts):
                     why = ['ac-impedance-missing-j']
                 key = {'formulation': 'nodal', 'defect': why[0] if why else 'unexplained'}
                 cex(key, {'input': {'netlist': net.lines(), 'analysis': net.analysis, 'point': fstr(net.point), 'node': node},
                           'lcapy_equation': '%s = %s' % (lhs, rhs),
                           'reported_node_voltages': dict(zip(nodes, xs)), 'residual': r,
                           'spec': 'LinForm.eval of the printed equation at the reported solution must be 0 (nodal_eqs_hold)',
-                          'model_asis': (replies['asis'] or {}).get(node), 'model_patched': (replies['patched'] or {}).get(node)},
+                          'model': (model or {}).get(node)},
                     'nodal equation at node %s is not satisfied by the reported node voltages' % node)
             else:
                 chk.count('oracle', 'nodal-holds')
@@ -523,12 +500,7 @@ def run(chk, replay=None):
                     matched = matched or variant
             if replies['asis'][m] is not None:
                 chk.coverage['correspondence']['compared'] += 1
-                if matched is None and net.analysis == 'ac':
-                    # finding C15-h: in an AC kind terms of the KVL sum are silently dropped; recorded apart and
-                    # required to be explained by a concrete counterexample of that kind in this run
-                    state['ac_mesh_mismatch'] = state.get('ac_mesh_mismatch', 0) + 1
-                    ac_mismatch.append({'netlist': net.lines(), 'loops': loops, 'mesh': m, 'lcapy': got, 'model_asis': replies['asis'][m]})
-                elif matched is None:
+                if matched is None:
                     chk.coverage['correspondence']['disagreements'] += 1
                     disagreements.append({'what': 'mesh equation', 'netlist': net.lines(), 'analysis': net.model_analysis(),
                                           'loops': loops, 'mesh': m, 'lcapy': got, 'model_asis': replies['asis'][m],
@@ -553,20 +525,12 @@ def run(chk, replay=None):
                     pairs.setdefault(frozenset((c[2], c[3])), []).append(c[0])
                 par_on_loop = any(len(v) > 1 and (set(v) & on_loop) for v in pairs.values())
                 ac_react = net.analysis == 'ac' and any(c[0] in on_loop and c[1] in 'CL' for c in net.cpts)
-                ac_dropped = net.analysis == 'ac' and replies['asis'][m] is not None and not same_eq(replies['asis'][m], got)
-                if ac_dropped:
-                    state['ac_mesh_cex'] = True
-                # which patch switches the code matched tells which defects are still present
-                fl = {'e': 0, 'i': 0, 'j': 0}
-                for variant in MESH_VARIANTS:
-                    if replies[variant][m] is not None and same_eq(replies[variant][m], got):
-                        vf = {'e': 0, 'i': 0, 'j': 0} if variant == 'asis' else {'e': 1, 'i': 1, 'j': 1} if variant == 'patched' \
-                            else {variant[k]: int(variant[k + 1]) for k in (0, 2, 4)}
-                        fl = {k: max(fl[k], vf[k]) for k in fl}
-                defect = 'ac-kind-terms-dropped' if ac_dropped else \
-                    'parallel-components' if (par_on_loop and not fl['e']) else \
-                    'initial-condition' if (ic_on_loop and not fl['i']) else \
-                    'ac-impedance-missing-j' if (ac_react and not fl['j']) else 'unexplained'
+                # C15-c (open) explains a failure only when the code prints exactly what the as-is model prints and
+                # the edge-based model would print something else; the other keys belong to fixed findings
+                m_asis, m_pat = replies['asis'][m], replies['patched'][m]
+                is_c = par_on_loop and m_asis is not None and same_eq(m_asis, got) and not (m_pat is not None and same_eq(m_pat, got))
+                defect = 'parallel-components' if is_c else 'initial-condition' if ic_on_loop else \
+                    'ac-impedance-missing-j' if ac_react else 'unexplained'
                 cex({'formulation': 'mesh', 'defect': defect},
                     {'input': {'netlist': net.lines(), 'analysis': net.analysis, 'point': fstr(net.point), 'loops': loops, 'mesh': m},
                      'lcapy_equation': '%s = %s' % (lhs, rhs_), 'mesh_currents_from_reported_branch_currents': im,
@@ -629,27 +593,18 @@ def run(chk, replay=None):
                 if rowsA[i][j] != '0':
                     real['%s,%s' % (li, lj)] = rowsA[i][j]
         realz = {li: colZ[i] for i, li in enumerate(labels) if colZ[i] != '0'}
-        # code as it is: a 'laplace' netlist is stamped without initial conditions (C15-f); patched: with them
-        tried = []
-        for which, a_ in (('zero-ic', an), ('with-ic', anl)):
-            r = drv.ask1('mna.matrix %s || %s' % (a_, ' || '.join(net.lines())))
-            if not r.startswith('ok A'):
-                chk.count('model', 'mna:' + r[:30])
-                continue
+        r = drv.ask1('mna.matrix %s || %s' % (anl, ' || '.join(net.lines())))
+        if not r.startswith('ok A'):
+            chk.count('model', 'mna:' + r[:30])
+        else:
             ea, ez = r[len('ok A'):].split(' Z')
             mod = dict(t.rsplit('=', 1) for t in ea.split())
             modz = dict(t.rsplit('=', 1) for t in ez.split())
-            tried.append((which, mod, modz))
-            if mod == real and modz == realz:
-                if an != anl and net.has_ic():
-                    chk.count('mna-variant', which)
-                break
-        if tried:
             chk.coverage['correspondence']['compared'] += 1
-            if not any(mod == real and modz == realz for (_, mod, modz) in tried):
+            if mod != real or modz != realz:
                 chk.coverage['correspondence']['disagreements'] += 1
-                disagreements.append({'what': 'MNA matrices', 'netlist': net.lines(), 'analysis': an,
-                                      'lcapy_A': real, 'model_A': tried[0][1], 'lcapy_Z': realz, 'model_Z': tried[0][2]})
+                disagreements.append({'what': 'MNA matrices', 'netlist': net.lines(), 'analysis': anl,
+                                      'lcapy_A': real, 'model_A': mod, 'lcapy_Z': realz, 'model_Z': modz})
         # the Laws spec itself on the reported solution (hypothesis of nodal_eqs_hold / mesh_eqs_hold)
         assign = 'V ' + ' '.join('%s=%s' % (n, x) for n, x in zip(nodes, xs[:len(nodes)])) + \
                  ' J ' + ' '.join('%s=%s' % (b, x) for b, x in zip(brs, xs[len(nodes):]))
@@ -889,31 +844,19 @@ def run(chk, replay=None):
                 Dtrue = (b[0] / a[0]) if len(b) == len(a) else sym.Integer(0)
                 dden = sym.diff(den, x)
                 res = [sym.simplify(sym.expand(num - Dtrue * den).subs(x, p_) / dden.subs(x, p_)) for p_ in poles]
-                # the code is handed H.b, H.a (normalised so that a is monic)
-                hb = ' '.join(gq(v.sympy) for v in H.b)
-                ha = ' '.join(gq(v.sympy) for v in H.a)
-                r = drv.ask1('ss.dcf || %s || %s || %s || %s' % (hb, ha, ' '.join(gq(p_) for p_ in poles), ' '.join(gq(v) for v in res)))
+                # the code cancels common factors first (SymPy, an input of the model) and works on monic lists
+                nc, dc_ = sym.fraction(sym.cancel(num / den))
+                pa_, pb_ = sym.Poly(dc_, x), sym.Poly(nc, x)
+                lc = pa_.LC()
+                ac_ = [c / lc for c in pa_.all_coeffs()]
+                bc_ = [c / lc for c in pb_.all_coeffs()]
+                r = drv.ask1('ss.dcf || %s || %s || %s || %s' % (' '.join(gq(v) for v in bc_), ' '.join(gq(v) for v in ac_),
+                                                                 ' '.join(gq(p_) for p_ in poles), ' '.join(gq(v) for v in res)))
                 mine = '%d ; %s ; %s ; %s ; %s' % (n, ' '.join(A), ' '.join(B), ' '.join(C), D)
                 chk.coverage['correspondence']['compared'] += 1
-                if r != mine and sym.degree(sym.gcd(sym.Poly(num, x), sym.Poly(den, x)), x) > 0:
-                    # patched code (C15-j): common factors are cancelled before the realisation is built
-                    nc, dc_ = sym.fraction(sym.cancel(num / den))
-                    pa_, pb_ = sym.Poly(dc_, x), sym.Poly(nc, x)
-                    lc = pa_.LC()
-                    ac_ = [c / lc for c in pa_.all_coeffs()]
-                    bc_ = [c / lc for c in pb_.all_coeffs()]
-                    r2 = drv.ask1('ss.dcf || %s || %s || %s || %s' % (' '.join(gq(v) for v in bc_), ' '.join(gq(v) for v in ac_),
-                                                                      ' '.join(gq(p_) for p_ in poles), ' '.join(gq(v) for v in res)))
-                    if r2 == mine:
-                        r = mine
-                        chk.count('dcf-variant', 'cancelled-first')
                 if r != mine:
-                    if len(b) == len(a) or sym.degree(sym.gcd(sym.Poly(num, x), sym.Poly(den, x)), x) > 0:
-                        state['dcf_biproper_mismatch'] = state.get('dcf_biproper_mismatch', 0) + 1
-                        dcf_mismatch.append({'what': 'realisation DCF', 'input': inp, 'lcapy': mine, 'model': r})
-                    else:
-                        chk.coverage['correspondence']['disagreements'] += 1
-                        disagreements.append({'what': 'realisation DCF', 'input': inp, 'lcapy': mine, 'model': r})
+                    chk.coverage['correspondence']['disagreements'] += 1
+                    disagreements.append({'what': 'realisation DCF', 'input': inp, 'lcapy': mine, 'model': r})
             except NotExact:
                 chk.count('degenerate', 'dcf-poles-not-exact')
         # oracle: Spec predicate Realises at sample points (judged by Lean, on Lcapy's matrices)
@@ -929,8 +872,6 @@ def run(chk, replay=None):
                 common_factor = sym.degree(sym.gcd(sym.Poly(num, x), sym.Poly(den, x)), x) > 0
                 defect = 'dcf-common-factor' if (form == 'DCF' and common_factor) else \
                     'dcf-biproper' if (form == 'DCF' and biproper) else 'unexplained'
-                if form == 'DCF' and defect != 'unexplained':
-                    state['dcf_cex'] = True
                 cex({'formulation': 'ss-tf', 'form': form, 'defect': defect},
                     {'input': inp, 'A': A, 'B': B, 'C': C, 'D': D, 'sample': fstr(s0), 'lean': r,
                      'spec': 'Realises: (sI-A)X = B, (C X + D)·a(s) = b(s)'},
@@ -1000,12 +941,6 @@ def run(chk, replay=None):
 
     # ------------------------------------------------------------------ classification
     chk.coverage['correspondence']['samples_of_disagreement'] = disagreements[:5]
-    chk.coverage['correspondence']['ac_mesh_mismatches_explained_by_C15-h'] = len(ac_mismatch)
-    chk.coverage['correspondence']['dcf_biproper_mismatches_explained_by_C15-e'] = len(dcf_mismatch)
-    if dcf_mismatch and not state.get('dcf_cex'):
-        disagreements.extend(dcf_mismatch)
-    if ac_mismatch and not state.get('ac_mesh_cex'):
-        disagreements.extend({'what': 'mesh equation (ac)', **d} for d in ac_mismatch)
     if broken and state['cex'] == 0:
         for b in broken[:20]:
             chk.unexplained('broken-obligation', b, chk.coverage.get('build_log_tail', '')[-600:])
